@@ -1,1 +1,1042 @@
-fn main(){}
+//! iosim — the file-load simulator (IOSIM) for property C21.
+//!
+//! System under simulation: load_kb_from_file -> read_facts_and_rules ->
+//! line_reader -> BufReader::lines() -> strip_comments / check_last_char /
+//! separate_rules -> parse_rule -> add_rules, all real. Hook H2 lets the
+//! simulator supply the byte stream: a `SimFile: Read` that applies an
+//! explicit fault plan (short reads, EINTR, one-off and persistent EIO, a
+//! flipped stored byte that breaks UTF-8, truncation).
+//!
+//!   iosim check  --tier quick|thorough [--seed N] [--runs N] [--threads N] --evidence FILE --replay-dir DIR --known FILE
+//!   iosim replay FILE
+//!   iosim show   --seed N --index I
+
+mod gen;
+
+use gen::*;
+use serde::{Deserialize, Serialize};
+use simcore::rng::{fnv1a, Rng};
+use std::cell::RefCell;
+use std::collections::{BTreeMap, BTreeSet};
+use std::io::{self, Read};
+use std::panic::{catch_unwind, AssertUnwindSafe};
+use std::rc::Rc;
+use std::sync::{Arc, Mutex};
+use std::time::Instant;
+use suiron::rule_reader::verif_io;
+use suiron::*;
+
+const SIM_PATH: &str = "/iosim/simulated-file.txt";
+
+// ---------------------------------------------------------------------------------------------
+// fault plan and simulated file
+// ---------------------------------------------------------------------------------------------
+
+#[derive(Serialize, Deserialize, Clone, Debug, PartialEq, Eq)]
+pub enum Fault {
+    /// read() returns at most the next size of this cyclic list
+    ShortRead { sizes: Vec<usize> },
+    /// ErrorKind::Interrupted at read() call number `call` (1-based)
+    Eintr { call: u64 },
+    /// one Err(Other) at read() call number `call`, data intact afterwards
+    EioOnce { call: u64 },
+    /// every read() at or beyond byte offset `offset` fails
+    EioFrom { offset: usize },
+    /// the stored byte at `offset` is replaced (breaks UTF-8)
+    BadUtf8 { offset: usize, byte: u8 },
+    /// end of file at byte offset `offset`
+    Truncate { offset: usize },
+}
+
+impl Fault {
+    fn kind(&self) -> &'static str {
+        match self {
+            Fault::ShortRead { .. } => "short_read",
+            Fault::Eintr { .. } => "eintr",
+            Fault::EioOnce { .. } => "eio_once",
+            Fault::EioFrom { .. } => "eio_from",
+            Fault::BadUtf8 { .. } => "bad_utf8",
+            Fault::Truncate { .. } => "truncate",
+        }
+    }
+    /// Faults after which no data is lost: the file must load exactly as without them.
+    fn benign(&self) -> bool {
+        matches!(self, Fault::ShortRead { .. } | Fault::Eintr { .. })
+    }
+}
+
+#[derive(Default, Debug, Clone)]
+struct FileStats {
+    calls: u64,
+    bytes: u64,
+    fired: BTreeMap<String, u64>,
+    errors_returned: u64,
+    gave_up: bool,
+}
+
+struct ReadBudgetExceeded;
+
+struct SimFile {
+    data: Vec<u8>,
+    pos: usize,
+    faults: Vec<Fault>,
+    short_i: usize,
+    stats: Rc<RefCell<FileStats>>,
+    /// bounded liveness: number of further read() calls allowed after the first injected error
+    budget_after_error: u64,
+    calls_since_error: Option<u64>,
+}
+
+impl Read for SimFile {
+    fn read(&mut self, buf: &mut [u8]) -> io::Result<usize> {
+        let call = {
+            let mut st = self.stats.borrow_mut();
+            st.calls += 1;
+            st.calls
+        };
+        if let Some(n) = self.calls_since_error.as_mut() {
+            *n += 1;
+            if *n > self.budget_after_error {
+                self.stats.borrow_mut().gave_up = true;
+                std::panic::panic_any(ReadBudgetExceeded);
+            }
+        }
+        let fire = |stats: &Rc<RefCell<FileStats>>, k: &str| {
+            *stats.borrow_mut().fired.entry(k.to_string()).or_insert(0) += 1;
+        };
+        for f in &self.faults {
+            match f {
+                Fault::Eintr { call: c } if *c == call => {
+                    fire(&self.stats, "eintr");
+                    return Err(io::Error::new(io::ErrorKind::Interrupted, "injected EINTR"));
+                }
+                Fault::EioOnce { call: c } if *c == call => {
+                    fire(&self.stats, "eio_once");
+                    self.stats.borrow_mut().errors_returned += 1;
+                    self.calls_since_error.get_or_insert(0);
+                    return Err(io::Error::new(io::ErrorKind::Other, "injected EIO (once)"));
+                }
+                Fault::EioFrom { offset } if self.pos >= *offset => {
+                    fire(&self.stats, "eio_from");
+                    self.stats.borrow_mut().errors_returned += 1;
+                    self.calls_since_error.get_or_insert(0);
+                    return Err(io::Error::new(io::ErrorKind::Other, "injected EIO (persistent)"));
+                }
+                _ => {}
+            }
+        }
+        let mut n = buf.len().min(self.data.len() - self.pos);
+        for f in &self.faults {
+            match f {
+                Fault::ShortRead { sizes } if !sizes.is_empty() => {
+                    let s = sizes[self.short_i % sizes.len()].max(1);
+                    self.short_i += 1;
+                    if s < n {
+                        n = s;
+                        fire(&self.stats, "short_read");
+                    }
+                }
+                Fault::EioFrom { offset } if self.pos < *offset => {
+                    // deliver the bytes before the bad region, then fail
+                    n = n.min(*offset - self.pos);
+                }
+                _ => {}
+            }
+        }
+        buf[..n].copy_from_slice(&self.data[self.pos..self.pos + n]);
+        self.pos += n;
+        self.stats.borrow_mut().bytes += n as u64;
+        Ok(n)
+    }
+}
+
+// ---------------------------------------------------------------------------------------------
+// scenario, execution, oracle
+// ---------------------------------------------------------------------------------------------
+
+#[derive(Serialize, Deserialize, Clone, Debug, PartialEq, Eq)]
+pub struct Scenario {
+    pub program: Program,
+    pub rendered: Rendered,
+    pub faults: Vec<Fault>,
+}
+
+#[derive(Serialize, Deserialize, Clone, Debug, PartialEq, Eq)]
+pub enum Outcome {
+    /// load_kb_from_file returned None; the knowledge base as format_kb prints it
+    Loaded { kb: String },
+    /// returned Some(message)
+    Rejected { message: String },
+    /// the loader (or the parser below it) panicked
+    Panicked { message: String },
+    /// still reading after the bound on read() calls following an injected error
+    NoReturn { calls: u64 },
+}
+
+#[derive(Serialize, Deserialize, Clone, Debug, PartialEq, Eq)]
+pub struct Violation {
+    pub property: String,
+    pub class: String,
+    pub fault_kinds: Vec<String>,
+    pub expected: String,
+    pub observed: String,
+    pub detail: String,
+}
+
+impl Violation {
+    fn signature(&self) -> String {
+        format!("{}:{}", self.class, self.fault_kinds.join("+"))
+    }
+}
+
+fn accept_rule(text: &str) -> bool {
+    matches!(catch_unwind(AssertUnwindSafe(|| parse_rule(text).is_ok())), Ok(true))
+}
+
+/// Reference: the knowledge base obtained by parse_rule on each rule text, in order.
+fn reference_kb(rules: &[String]) -> Option<String> {
+    let mut kb = KnowledgeBase::new();
+    for r in rules {
+        match catch_unwind(AssertUnwindSafe(|| parse_rule(r))) {
+            Ok(Ok(rule)) => add_rules(&mut kb, vec![rule]),
+            _ => return None,
+        }
+    }
+    Some(format_kb(&kb))
+}
+
+struct Exec {
+    outcome: Outcome,
+    stats: FileStats,
+}
+
+fn apply_stored_faults(bytes: &[u8], faults: &[Fault]) -> Vec<u8> {
+    let mut data = bytes.to_vec();
+    for f in faults {
+        if let Fault::BadUtf8 { offset, byte } = f {
+            if *offset < data.len() {
+                data[*offset] = *byte;
+            }
+        }
+    }
+    for f in faults {
+        if let Fault::Truncate { offset } = f {
+            if *offset < data.len() {
+                data.truncate(*offset);
+            }
+        }
+    }
+    data
+}
+
+fn execute(scn: &Scenario) -> Exec {
+    let bytes = scn.rendered.bytes();
+    let data = apply_stored_faults(&bytes, &scn.faults);
+    let stats = Rc::new(RefCell::new(FileStats::default()));
+    for f in &scn.faults {
+        match f {
+            Fault::BadUtf8 { offset, .. } if *offset < bytes.len() => {
+                *stats.borrow_mut().fired.entry("bad_utf8".into()).or_insert(0) += 1;
+            }
+            Fault::Truncate { offset } if *offset < bytes.len() => {
+                *stats.borrow_mut().fired.entry("truncate".into()).or_insert(0) += 1;
+            }
+            _ => {}
+        }
+    }
+    let budget = data.len() as u64 + 64;
+    let faults = scn.faults.clone();
+    let stats2 = Rc::clone(&stats);
+    verif_io::set_opener(Some(Box::new(move |path: &std::path::Path| {
+        if path.to_str() == Some(SIM_PATH) {
+            let f: Box<dyn Read> = Box::new(SimFile {
+                data: data.clone(),
+                pos: 0,
+                faults: faults.clone(),
+                short_i: 0,
+                stats: Rc::clone(&stats2),
+                budget_after_error: budget,
+                calls_since_error: None,
+            });
+            Some(Ok(f))
+        } else {
+            None
+        }
+    })));
+    let result = catch_unwind(AssertUnwindSafe(|| {
+        let mut kb = KnowledgeBase::new();
+        let r = load_kb_from_file(&mut kb, SIM_PATH);
+        (r, format_kb(&kb))
+    }));
+    verif_io::set_opener(None);
+    let st = stats.borrow().clone();
+    let outcome = match result {
+        Ok((None, kb)) => Outcome::Loaded { kb },
+        Ok((Some(message), _)) => Outcome::Rejected { message },
+        Err(p) => {
+            if p.downcast_ref::<ReadBudgetExceeded>().is_some() {
+                Outcome::NoReturn { calls: st.calls }
+            } else {
+                let message = if let Some(s) = p.downcast_ref::<&str>() {
+                    s.to_string()
+                } else if let Some(s) = p.downcast_ref::<String>() {
+                    s.clone()
+                } else {
+                    "panic".to_string()
+                };
+                Outcome::Panicked { message }
+            }
+        }
+    };
+    Exec { outcome, stats: st }
+}
+
+/// What is left of rule `ri` before byte offset `upto_byte`: its code pieces, each trimmed,
+/// put together with single spaces (white space between the pieces of a rule has no meaning).
+fn joined_rule(r: &Rendered, ri: usize, upto_byte: Option<usize>) -> String {
+    let mut out = String::new();
+    let mut at = 0usize;
+    for p in &r.pieces {
+        let len = p.text.len();
+        if let PieceKind::Code { rule } = p.kind {
+            if rule == ri {
+                let take = match upto_byte {
+                    Some(b) if at >= b => 0,
+                    Some(b) if at + len > b => b - at,
+                    _ => len,
+                };
+                // cut only at a character boundary
+                let mut t = take;
+                while t > 0 && !p.text.is_char_boundary(t) {
+                    t -= 1;
+                }
+                let piece = p.text[..t].trim();
+                if !piece.is_empty() {
+                    if !out.is_empty() && !out.ends_with('.') {
+                        out.push(' ');
+                    }
+                    out.push_str(piece);
+                }
+            }
+        }
+        at += len;
+    }
+    out
+}
+
+/// Byte offset just after the last byte of rule `ri`.
+fn rule_end(r: &Rendered, ri: usize) -> usize {
+    let mut at = 0usize;
+    let mut end = 0usize;
+    for p in &r.pieces {
+        at += p.text.len();
+        if let PieceKind::Code { rule } = p.kind {
+            if rule == ri {
+                end = at;
+            }
+        }
+    }
+    end
+}
+
+struct Verdict {
+    violation: Option<Violation>,
+    /// a legal layout was rejected with an error (allowed by the property's last sentence; counted)
+    legal_layout_rejected: bool,
+}
+
+fn judge(scn: &Scenario, ex: &Exec) -> Verdict {
+    let kinds: Vec<String> = {
+        let mut k: Vec<String> = scn.faults.iter().map(|f| f.kind().to_string()).collect();
+        k.sort();
+        k.dedup();
+        k
+    };
+    let all_benign = scn.faults.iter().all(|f| f.benign());
+    let mk = |class: &str, expected: String, observed: String, detail: String| Verdict {
+        violation: Some(Violation { property: "C21".into(), class: class.into(), fault_kinds: kinds.clone(), expected, observed, detail }),
+        legal_layout_rejected: false,
+    };
+    let ok = Verdict { violation: None, legal_layout_rejected: false };
+    let full = match reference_kb(&scn.program.rules) {
+        Some(k) => k,
+        None => return ok, // cannot happen: every rule was accepted by parse_rule when generated
+    };
+    match &ex.outcome {
+        Outcome::NoReturn { calls } => mk(
+            "no_return",
+            "load_kb_from_file returns (an error) after a failing read".into(),
+            format!("still reading after {} read() calls", calls),
+            format!("{} reads failed", ex.stats.errors_returned),
+        ),
+        // A panic is a rejection too (what the parser does with a fragment is C18's subject).
+        Outcome::Panicked { .. } => ok,
+        Outcome::Rejected { message } => {
+            if all_benign && !scn.program.l2 && scn.rendered.class == LayoutClass::Plain {
+                mk(
+                    "legal_file_rejected",
+                    "loaded (plain layout, no data-losing fault)".into(),
+                    format!("rejected: {}", message),
+                    String::new(),
+                )
+            } else {
+                Verdict { violation: None, legal_layout_rejected: all_benign && !scn.program.l2 }
+            }
+        }
+        Outcome::Loaded { kb } => {
+            if *kb == full {
+                return ok;
+            }
+            // what else may a loaded knowledge base legitimately be?
+            let mut allowed: Vec<String> = vec![];
+            for f in &scn.faults {
+                if let Fault::Truncate { offset } = f {
+                    let b = *offset;
+                    let complete: Vec<String> =
+                        (0..scn.program.rules.len()).filter(|ri| rule_end(&scn.rendered, *ri) <= b).map(|ri| scn.program.rules[ri].clone()).collect();
+                    if let Some(k) = reference_kb(&complete) {
+                        allowed.push(k);
+                    }
+                    // the cut rule, if what is left of it happens to be a complete rule by itself
+                    if let Some(ri) = (0..scn.program.rules.len()).find(|ri| rule_end(&scn.rendered, *ri) > b) {
+                        let frag = joined_rule(&scn.rendered, ri, Some(b));
+                        if frag.ends_with('.') && accept_rule(&frag) {
+                            let mut v = complete.clone();
+                            v.push(frag);
+                            if let Some(k) = reference_kb(&v) {
+                                allowed.push(k);
+                            }
+                        }
+                    }
+                }
+            }
+            if allowed.iter().any(|a| a == kb) {
+                return ok;
+            }
+            mk(
+                "silently_different_rules",
+                full.clone(),
+                kb.clone(),
+                format!("loaded without an error, but the knowledge base is not the one obtained by parsing the file's rules one by one (reads: {}, failed reads: {})", ex.stats.calls, ex.stats.errors_returned),
+            )
+        }
+    }
+}
+
+// ---------------------------------------------------------------------------------------------
+// generation of scenarios
+// ---------------------------------------------------------------------------------------------
+
+fn gen_faults(rng: &mut Rng, len: usize) -> Vec<Fault> {
+    let mut out = vec![];
+    // swarm: which kinds are enabled in this run
+    let n = rng.weighted(&[3, 5, 3, 1]); // number of faults
+    for _ in 0..n {
+        let f = match rng.weighted(&[4, 2, 3, 2, 3, 3]) {
+            0 => {
+                let k = rng.range(1, 4);
+                Fault::ShortRead { sizes: (0..k).map(|_| *rng.pick(&[1usize, 2, 3, 7, 16, 61, 200])).collect() }
+            }
+            1 => Fault::Eintr { call: rng.range(1, 12) },
+            2 => Fault::EioOnce { call: rng.range(1, 12) },
+            3 => Fault::EioFrom { offset: rng.usize_below(len + 1) },
+            4 => Fault::BadUtf8 { offset: rng.usize_below(len.max(1)), byte: *rng.pick(&[0xFFu8, 0xC0, 0x80, 0xFE]) },
+            _ => Fault::Truncate { offset: rng.usize_below(len + 1) },
+        };
+        out.push(f);
+    }
+    out
+}
+
+fn gen_scenario(seed: u64, index: u64) -> Scenario {
+    let mut rng = Rng::split(seed, "C21", index);
+    let program = gen_program(&mut rng, &accept_rule);
+    let layout = gen_layout(&mut rng);
+    let rendered = render(&mut rng, &program, &layout);
+    let len = rendered.bytes().len();
+    let faults = if rng.chance(1, 4) { vec![] } else { gen_faults(&mut rng, len) };
+    Scenario { program, rendered, faults }
+}
+
+// ---------------------------------------------------------------------------------------------
+// minimiser, replay files
+// ---------------------------------------------------------------------------------------------
+
+#[derive(Serialize, Deserialize, Clone, Debug)]
+pub struct ReplayFile {
+    pub engine: String,
+    pub property: String,
+    pub seed: u64,
+    pub run_index: u64,
+    pub violation: Violation,
+    pub scenario: Scenario,
+    pub rules: Vec<String>,
+    pub file_text_lossy: String,
+    pub file_hex: String,
+    pub outcome: Outcome,
+    pub read_calls: u64,
+    pub original_rules: usize,
+    pub original_faults: usize,
+    pub minimiser_tests: u64,
+}
+
+fn fails(scn: &Scenario, sig: &str) -> Option<(Violation, Exec)> {
+    let ex = execute(scn);
+    match judge(scn, &ex).violation {
+        Some(v) if v.signature() == sig || sig.is_empty() => Some((v, ex)),
+        // while dropping faults the set of kinds shrinks: same class is enough
+        Some(v) if v.class == sig.split(':').next().unwrap_or("") => Some((v, ex)),
+        _ => None,
+    }
+}
+
+/// Rebuilds the rendered file after rules were removed: pieces of removed rules (and the
+/// decoration that followed them up to the next rule) are dropped, offsets of faults are kept
+/// only if they still fall inside the file.
+fn drop_rule(scn: &Scenario, ri: usize) -> Scenario {
+    let mut s = scn.clone();
+    s.program.rules.remove(ri);
+    let mut pieces = vec![];
+    let mut skipping = false;
+    for p in &scn.rendered.pieces {
+        match p.kind {
+            PieceKind::Code { rule } if rule == ri => skipping = true,
+            PieceKind::Code { rule } => {
+                skipping = false;
+                let nr = if rule > ri { rule - 1 } else { rule };
+                pieces.push(Piece { kind: PieceKind::Code { rule: nr }, text: p.text.clone() });
+            }
+            PieceKind::Decoration => {
+                if !skipping {
+                    pieces.push(p.clone());
+                }
+            }
+        }
+    }
+    s.rendered.pieces = pieces;
+    s.program.l2 = s.program.rules.iter().any(|r| has_top_level_period(r));
+    s
+}
+
+fn plain_layout(scn: &Scenario) -> Scenario {
+    let mut s = scn.clone();
+    let mut pieces = vec![];
+    for (ri, r) in s.program.rules.iter().enumerate() {
+        pieces.push(Piece { kind: PieceKind::Code { rule: ri }, text: r.clone() });
+        pieces.push(Piece { kind: PieceKind::Decoration, text: "\n".into() });
+    }
+    s.rendered.pieces = pieces;
+    s.rendered.class = LayoutClass::Plain;
+    s
+}
+
+fn minimise(scn: &Scenario, v: &Violation) -> (Scenario, Violation, Exec, u64) {
+    let sig = v.signature();
+    let mut tests = 0u64;
+    let mut best = scn.clone();
+    let (mut bv, mut bex) = match fails(&best, &sig) {
+        Some(x) => x,
+        None => return (scn.clone(), v.clone(), execute(scn), 0),
+    };
+    let mut progress = true;
+    while progress && tests < 3000 {
+        progress = false;
+        // faults
+        let mut i = best.faults.len();
+        while i > 0 {
+            i -= 1;
+            let mut c = best.clone();
+            c.faults.remove(i);
+            tests += 1;
+            if let Some((v2, ex2)) = fails(&c, &sig) {
+                best = c;
+                bv = v2;
+                bex = ex2;
+                progress = true;
+            }
+        }
+        // rules (fault offsets refer to the old layout: a candidate that no longer fails is simply rejected)
+        let mut i = best.program.rules.len();
+        while i > 0 && best.program.rules.len() > 1 {
+            i -= 1;
+            if i >= best.program.rules.len() {
+                continue;
+            }
+            let c = drop_rule(&best, i);
+            tests += 1;
+            if let Some((v2, ex2)) = fails(&c, &sig) {
+                best = c;
+                bv = v2;
+                bex = ex2;
+                progress = true;
+            }
+        }
+        // layout decorations
+        let c = plain_layout(&best);
+        if c.rendered.pieces != best.rendered.pieces {
+            tests += 1;
+            if let Some((v2, ex2)) = fails(&c, &sig) {
+                best = c;
+                bv = v2;
+                bex = ex2;
+                progress = true;
+            }
+        }
+        // fault arguments: simpler chunk lists, earlier offsets
+        for i in 0..best.faults.len() {
+            let cands: Vec<Fault> = match &best.faults[i] {
+                Fault::ShortRead { sizes } if sizes.len() > 1 => vec![Fault::ShortRead { sizes: vec![sizes[0]] }],
+                Fault::Truncate { offset } if *offset > 0 => vec![Fault::Truncate { offset: offset / 2 }, Fault::Truncate { offset: offset - 1 }],
+                Fault::EioFrom { offset } if *offset > 0 => vec![Fault::EioFrom { offset: 0 }, Fault::EioFrom { offset: offset / 2 }],
+                Fault::EioOnce { call } if *call > 1 => vec![Fault::EioOnce { call: 1 }, Fault::EioOnce { call: call - 1 }],
+                _ => vec![],
+            };
+            for f in cands {
+                let mut c = best.clone();
+                c.faults[i] = f;
+                tests += 1;
+                if let Some((v2, ex2)) = fails(&c, &sig) {
+                    best = c;
+                    bv = v2;
+                    bex = ex2;
+                    progress = true;
+                    break;
+                }
+            }
+        }
+    }
+    (best, bv, bex, tests)
+}
+
+fn hex(b: &[u8]) -> String {
+    b.iter().map(|x| format!("{:02x}", x)).collect()
+}
+
+fn make_replay(seed: u64, index: u64, original: &Scenario, scn: &Scenario, v: &Violation, ex: &Exec, tests: u64) -> ReplayFile {
+    let data = apply_stored_faults(&scn.rendered.bytes(), &scn.faults);
+    ReplayFile {
+        engine: "iosim".into(),
+        property: "C21".into(),
+        seed,
+        run_index: index,
+        violation: v.clone(),
+        rules: scn.program.rules.clone(),
+        file_text_lossy: String::from_utf8_lossy(&data).into_owned(),
+        file_hex: hex(&data),
+        outcome: ex.outcome.clone(),
+        read_calls: ex.stats.calls,
+        original_rules: original.program.rules.len(),
+        original_faults: original.faults.len(),
+        minimiser_tests: tests,
+        scenario: scn.clone(),
+    }
+}
+
+fn replay(path: &str) -> i32 {
+    let rf: ReplayFile = match std::fs::read_to_string(path).ok().and_then(|t| serde_json::from_str(&t).ok()) {
+        Some(r) => r,
+        None => {
+            eprintln!("cannot read or parse {}", path);
+            return 2;
+        }
+    };
+    std::panic::set_hook(Box::new(|_| {}));
+    let ex = execute(&rf.scenario);
+    match judge(&rf.scenario, &ex).violation {
+        Some(v) if v == rf.violation && ex.outcome == rf.outcome && ex.stats.calls == rf.read_calls => {
+            eprintln!("replayed: {} ({}) faults {:?}", v.class, v.detail, rf.scenario.faults);
+            eprintln!("  rules: {:?}", rf.rules);
+            eprintln!("  expected: {}", v.expected);
+            eprintln!("  observed: {}", v.observed);
+            println!("VIOLATION property=C21 replay={}", path);
+            1
+        }
+        Some(v) => {
+            eprintln!("a violation is reproduced but not the recorded one: {:?}", v);
+            3
+        }
+        None => {
+            eprintln!("NOT REPRODUCED: {} (this tree gives {:?})", path, ex.outcome);
+            0
+        }
+    }
+}
+
+// ---------------------------------------------------------------------------------------------
+// check
+// ---------------------------------------------------------------------------------------------
+
+#[derive(Default)]
+struct Totals {
+    runs: u64,
+    fault_free_runs: u64,
+    enumerated_runs: u64,
+    planned: BTreeMap<String, u64>,
+    fired: BTreeMap<String, u64>,
+    outcomes: BTreeMap<String, u64>,
+    outcome_by_kind: BTreeMap<String, u64>,
+    classes: BTreeMap<String, u64>,
+    legal_layout_rejected: u64,
+    l2_programs: u64,
+    read_calls: u64,
+    bytes_read: u64,
+    distinct: BTreeSet<u64>,
+    combos: BTreeSet<String>,
+    samples: Vec<serde_json::Value>,
+    violations: Vec<ReplayFile>,
+    violations_total: u64,
+}
+
+fn landing_class(scn: &Scenario, offset: usize) -> &'static str {
+    let mut at = 0usize;
+    for p in &scn.rendered.pieces {
+        if offset < at + p.text.len() {
+            return match p.kind {
+                PieceKind::Code { .. } => "code",
+                PieceKind::Decoration => {
+                    if p.text.contains('#') || p.text.contains('%') || p.text.contains("//") {
+                        "comment"
+                    } else {
+                        "whitespace"
+                    }
+                }
+            };
+        }
+        at += p.text.len();
+    }
+    "end"
+}
+
+fn account(t: &mut Totals, scn: &Scenario, ex: &Exec, verdict: &Verdict, seed: u64, index: u64, enumerated: bool) {
+    t.runs += 1;
+    if enumerated {
+        t.enumerated_runs += 1;
+    }
+    if scn.faults.is_empty() {
+        t.fault_free_runs += 1;
+    }
+    if scn.program.l2 {
+        t.l2_programs += 1;
+    }
+    for f in &scn.faults {
+        *t.planned.entry(f.kind().to_string()).or_insert(0) += 1;
+    }
+    for (k, n) in &ex.stats.fired {
+        *t.fired.entry(k.clone()).or_insert(0) += n;
+    }
+    let o = match &ex.outcome {
+        Outcome::Loaded { .. } => "loaded",
+        Outcome::Rejected { .. } => "rejected",
+        Outcome::Panicked { .. } => "rejected_by_panic",
+        Outcome::NoReturn { .. } => "no_return",
+    };
+    *t.outcomes.entry(o.to_string()).or_insert(0) += 1;
+    let kinds: BTreeSet<&str> = scn.faults.iter().map(|f| f.kind()).collect();
+    let kname = if kinds.is_empty() { "none".to_string() } else { kinds.iter().cloned().collect::<Vec<_>>().join("+") };
+    *t.outcome_by_kind.entry(format!("{} -> {}", kname, o)).or_insert(0) += 1;
+    *t.classes.entry(format!("{:?}", scn.rendered.class)).or_insert(0) += 1;
+    if verdict.legal_layout_rejected {
+        t.legal_layout_rejected += 1;
+    }
+    t.read_calls += ex.stats.calls;
+    t.bytes_read += ex.stats.bytes;
+    let nontrivial = ex.stats.calls > 0 && (scn.program.rules.len() > 1 || !scn.faults.is_empty());
+    if nontrivial {
+        t.distinct.insert(fnv1a(serde_json::to_string(scn).unwrap().as_bytes()));
+    }
+    for f in &scn.faults {
+        let land = match f {
+            Fault::BadUtf8 { offset, .. } | Fault::Truncate { offset } | Fault::EioFrom { offset } => landing_class(scn, *offset),
+            _ => "-",
+        };
+        t.combos.insert(format!("{:?}/{}/{}", scn.rendered.class, f.kind(), land));
+    }
+    if t.samples.len() < 3 && !scn.faults.is_empty() && scn.program.rules.len() <= 4 && index % 7 == 3 {
+        t.samples.push(serde_json::json!({
+            "rules": scn.program.rules,
+            "file": String::from_utf8_lossy(&scn.rendered.bytes()),
+            "layout_class": format!("{:?}", scn.rendered.class),
+            "faults": scn.faults,
+            "outcome": ex.outcome,
+            "read_calls": ex.stats.calls,
+        }));
+    }
+    if let Some(v) = &verdict.violation {
+        t.violations_total += 1;
+        if t.violations.len() < 4 {
+            let (m, mv, mex, tests) = minimise(scn, v);
+            t.violations.push(make_replay(seed, index, scn, &m, &mv, &mex, tests));
+        }
+    }
+}
+
+/// Every single fault of every kind at every position, for one file.
+fn enumerate_faults(scn: &Scenario) -> Vec<Vec<Fault>> {
+    let len = scn.rendered.bytes().len();
+    let mut out: Vec<Vec<Fault>> = vec![];
+    // number of read() calls of a fault-free load with 7-byte reads
+    let short = Fault::ShortRead { sizes: vec![7] };
+    let calls = (len / 7 + 3) as u64;
+    for c in 1..=calls {
+        out.push(vec![short.clone(), Fault::Eintr { call: c }]);
+        out.push(vec![short.clone(), Fault::EioOnce { call: c }]);
+    }
+    for off in 0..=len {
+        out.push(vec![Fault::Truncate { offset: off }]);
+        out.push(vec![short.clone(), Fault::EioFrom { offset: off }]);
+        if off < len {
+            out.push(vec![Fault::BadUtf8 { offset: off, byte: 0xFF }]);
+        }
+    }
+    out
+}
+
+fn merge(into: &mut Totals, from: Totals) {
+    into.runs += from.runs;
+    into.fault_free_runs += from.fault_free_runs;
+    into.enumerated_runs += from.enumerated_runs;
+    into.legal_layout_rejected += from.legal_layout_rejected;
+    into.l2_programs += from.l2_programs;
+    into.read_calls += from.read_calls;
+    into.bytes_read += from.bytes_read;
+    into.violations_total += from.violations_total;
+    for (k, v) in from.planned { *into.planned.entry(k).or_insert(0) += v; }
+    for (k, v) in from.fired { *into.fired.entry(k).or_insert(0) += v; }
+    for (k, v) in from.outcomes { *into.outcomes.entry(k).or_insert(0) += v; }
+    for (k, v) in from.outcome_by_kind { *into.outcome_by_kind.entry(k).or_insert(0) += v; }
+    for (k, v) in from.classes { *into.classes.entry(k).or_insert(0) += v; }
+    into.distinct.extend(from.distinct);
+    into.combos.extend(from.combos);
+    if into.samples.len() < 3 {
+        into.samples.extend(from.samples.into_iter().take(1));
+    }
+    into.violations.extend(from.violations);
+}
+
+fn arg_value(args: &[String], name: &str) -> Option<String> {
+    args.iter().position(|a| a == name).and_then(|i| args.get(i + 1)).cloned()
+}
+fn arg_u64(args: &[String], name: &str, default: u64) -> u64 {
+    arg_value(args, name).and_then(|v| v.parse().ok()).unwrap_or(default)
+}
+
+#[derive(Deserialize, Clone, Debug)]
+struct KnownFinding {
+    id: String,
+    property: String,
+    status: String,
+    #[serde(default)]
+    class: String,
+    #[serde(default)]
+    contains: Vec<String>,
+    #[serde(default)]
+    what: String,
+}
+#[derive(Deserialize, Clone, Debug, Default)]
+struct KnownFile {
+    #[serde(default)]
+    findings: Vec<KnownFinding>,
+}
+
+fn check(args: &[String]) -> i32 {
+    let tier = arg_value(args, "--tier").unwrap_or_else(|| "quick".into());
+    let seed = arg_u64(args, "--seed", 1);
+    let threads = arg_u64(args, "--threads", 16).max(1);
+    let runs = arg_u64(args, "--runs", if tier == "thorough" { 40_000_000 } else { 600_000 });
+    let enum_files = arg_u64(args, "--enumerate", if tier == "thorough" { 2000 } else { 150 });
+    let max_seconds = arg_u64(args, "--max-seconds", if tier == "thorough" { 600 } else { 0 });
+    let evidence = arg_value(args, "--evidence").expect("--evidence");
+    let replay_dir = arg_value(args, "--replay-dir").expect("--replay-dir");
+    let known: KnownFile = arg_value(args, "--known").and_then(|p| std::fs::read_to_string(p).ok()).and_then(|t| serde_json::from_str(&t).ok()).unwrap_or_default();
+    let started = Instant::now();
+    std::panic::set_hook(Box::new(|_| {}));
+    println!("IOSIM check property=C21 tier={} seed={} runs<={} enumerated_files={} threads={}", tier, seed, runs, enum_files, threads);
+
+    let total = Arc::new(Mutex::new(Totals::default()));
+    let next = Arc::new(std::sync::atomic::AtomicU64::new(0));
+    let block = 2000u64;
+    std::thread::scope(|s| {
+        for _ in 0..threads {
+            let total = Arc::clone(&total);
+            let next = Arc::clone(&next);
+            s.spawn(move || {
+                let mut t = Totals::default();
+                loop {
+                    let first = next.fetch_add(block, std::sync::atomic::Ordering::SeqCst);
+                    if first >= runs || (max_seconds > 0 && started.elapsed().as_secs() >= max_seconds) {
+                        break;
+                    }
+                    for index in first..(first + block).min(runs) {
+                        let scn = gen_scenario(seed, index);
+                        // phase 1: for the first files, every single fault at every position
+                        if index < enum_files && scn.rendered.bytes().len() <= 400 {
+                            let mut base = scn.clone();
+                            base.faults.clear();
+                            for plan in enumerate_faults(&base) {
+                                let mut e = base.clone();
+                                e.faults = plan;
+                                let ex = execute(&e);
+                                let v = judge(&e, &ex);
+                                account(&mut t, &e, &ex, &v, seed, index, true);
+                            }
+                        }
+                        let ex = execute(&scn);
+                        let v = judge(&scn, &ex);
+                        account(&mut t, &scn, &ex, &v, seed, index, false);
+                    }
+                }
+                merge(&mut total.lock().unwrap(), t);
+            });
+        }
+    });
+    let mut total = std::mem::take(&mut *total.lock().unwrap());
+
+    // ---- violations ----
+    let mut exit = 0;
+    let mut harness_errors: Vec<String> = vec![];
+    let mut known_hits: BTreeMap<String, u64> = BTreeMap::new();
+    total.violations.sort_by_key(|r| (r.scenario.program.rules.len() + r.scenario.faults.len() * 2, r.run_index));
+    let mut seen: BTreeSet<String> = BTreeSet::new();
+    let mut reported = 0;
+    let exe = std::env::current_exe().unwrap();
+    for rf in &total.violations {
+        let hay = format!("{} | {} | {} | {:?} | {}", rf.violation.expected, rf.violation.observed, rf.violation.detail, rf.scenario.faults, rf.rules.join(" "));
+        if let Some(k) = known.findings.iter().find(|k| k.property == "C21" && k.status == "open" && (k.class.is_empty() || k.class == rf.violation.class) && k.contains.iter().all(|c| hay.contains(c))) {
+            *known_hits.entry(k.id.clone()).or_insert(0) += 1;
+            continue;
+        }
+        if !seen.insert(rf.violation.signature()) || reported >= 5 {
+            continue;
+        }
+        let path = format!("{}/C21-seed{}-run{}.json", replay_dir, rf.seed, rf.run_index);
+        std::fs::write(&path, serde_json::to_string_pretty(rf).unwrap()).expect("write replay");
+        let mut ok = true;
+        for _ in 0..2 {
+            let st = std::process::Command::new(&exe).args(["replay", &path]).stdout(std::process::Stdio::null()).stderr(std::process::Stdio::null()).status();
+            if st.map(|s| s.code()).ok().flatten() != Some(1) {
+                ok = false;
+            }
+        }
+        if !ok {
+            harness_errors.push(format!("violation of run {} does not replay exactly from {}", rf.run_index, path));
+            continue;
+        }
+        reported += 1;
+        exit = 1;
+        println!("violation: C21 {} faults {:?} — {}", rf.violation.class, rf.scenario.faults, rf.violation.detail);
+        println!("  rules: {:?}", rf.rules);
+        println!("  file: {:?}", rf.file_text_lossy);
+        println!("  outcome: {:?}", rf.outcome);
+        println!("VIOLATION property=C21 replay={}", path);
+    }
+    for k in &known.findings {
+        if k.property == "C21" && k.status == "open" {
+            println!("KNOWN-FINDING: property=C21 {} ({}; re-observed {} times in this run)", k.id, k.what, known_hits.get(&k.id).unwrap_or(&0));
+        }
+    }
+
+    // ---- batch self-test ----
+    if total.runs >= 50_000 {
+        for k in ["short_read", "eintr", "eio_once", "eio_from", "bad_utf8", "truncate"] {
+            if *total.fired.get(k).unwrap_or(&0) == 0 {
+                harness_errors.push(format!("fault kind {} never fired", k));
+            }
+        }
+        if *total.outcomes.get("loaded").unwrap_or(&0) == 0 || *total.outcomes.get("rejected").unwrap_or(&0) == 0 {
+            harness_errors.push("outcome classes not all reached".into());
+        }
+    }
+    if total.runs == 0 {
+        harness_errors.push("no runs executed".into());
+    }
+
+    let wall = started.elapsed().as_secs_f64();
+    let ev = serde_json::json!({
+        "property_id": "C21",
+        "tier": tier,
+        "seed": seed,
+        "level": "fault_enumeration",
+        "wall_s": wall,
+        "violations": reported,
+        "coverage": {
+            "evaluations": total.runs,
+            "distinct_nontrivial": total.distinct.len(),
+            "rule": "one evaluation = one load_kb_from_file call on a simulated file: generated program (rule texts accepted by parse_rule) x random legal layout (line breaks at the documented continuation characters, indentation, blank lines, #/%// comments, LF or CRLF) x explicit fault plan. Phase 1 enumerates, for the first files, every single fault at every position (every read() call x {eintr, eio_once}, every byte offset x {truncate, eio_from, bad_utf8}); phase 2 draws 0-3 faults at random. Non-trivial: the file was read and it has more than one rule or at least one fault. Distinct: different (program, layout, fault plan).",
+            "samples": total.samples,
+            "exhaustive": false,
+            "enumerated_single_fault_runs": total.enumerated_runs,
+            "fault_free_runs": total.fault_free_runs,
+            "runs_per_hour": if wall > 0.0 { (total.runs as f64 / wall * 3600.0) as u64 } else { 0 },
+            "faults_planned": total.planned,
+            "faults_fired": total.fired,
+            "outcomes": total.outcomes,
+            "outcomes_by_fault_kinds": total.outcome_by_kind,
+            "layout_classes": total.classes,
+            "programs_with_top_level_periods_L2": total.l2_programs,
+            "legal_layouts_rejected_with_an_error": total.legal_layout_rejected,
+            "distinct_layout_x_fault_x_landing": total.combos.len(),
+            "layout_x_fault_x_landing": total.combos,
+            "read_calls": total.read_calls,
+            "bytes_read": total.bytes_read,
+            "violations_before_dedup": total.violations_total,
+            "known_findings_reobserved": known_hits,
+            "components": {
+                "real": ["suiron load_kb_from_file, read_facts_and_rules, strip_comments, check_last_char, separate_rules, parse_rule, add_rules (built from /repo's working tree with --cfg suiron_verif)", "std::io::BufReader and Lines"],
+                "simulated": ["std::fs::File -> SimFile: Read (hook H2 in line_reader)"],
+            },
+            "harness_errors": harness_errors,
+        },
+        "assumptions": [
+            "the reference knowledge base is parse_rule applied to each generated rule text, compared through format_kb (clause order per predicate included)",
+            "after a data-losing fault the loader may reject the file; a rejection is never counted as a violation, a silently different knowledge base always is",
+            "only the 'plain' layout class (line breaks at bracket depth 0) is required to load; rejections of other legal layouts are counted, not alarmed (the property's last sentence allows a rejection)",
+            "a panic below the loader counts as a rejection (what the parsers do with fragments is C18's subject)",
+        ],
+    });
+    if let Some(dir) = std::path::Path::new(&evidence).parent() {
+        let _ = std::fs::create_dir_all(dir);
+    }
+    std::fs::write(&evidence, serde_json::to_string_pretty(&ev).unwrap()).expect("write evidence");
+    println!("runs={} (enumerated {}) distinct={} outcomes={:?} wall_s={:.1} violations={}", total.runs, total.enumerated_runs, total.distinct.len(), total.outcomes, wall, reported);
+    println!("faults fired: {:?}", total.fired);
+    println!("legal layouts rejected with an error: {}; layout classes {:?}", total.legal_layout_rejected, total.classes);
+    if !harness_errors.is_empty() {
+        for e in &harness_errors {
+            println!("HARNESS-ERROR: {}", e);
+        }
+        if exit == 0 {
+            return 2;
+        }
+    }
+    exit
+}
+
+fn show(args: &[String]) -> i32 {
+    let seed = arg_u64(args, "--seed", 1);
+    let index = arg_u64(args, "--index", 0);
+    std::panic::set_hook(Box::new(|_| {}));
+    let scn = gen_scenario(seed, index);
+    let ex = execute(&scn);
+    let v = judge(&scn, &ex);
+    println!("rules: {:#?}", scn.program.rules);
+    println!("file:\n{}", String::from_utf8_lossy(&scn.rendered.bytes()));
+    println!("class {:?} l2 {} faults {:?}", scn.rendered.class, scn.program.l2, scn.faults);
+    println!("outcome: {:?}", ex.outcome);
+    println!("stats: {:?}", ex.stats);
+    println!("violation: {:?}", v.violation);
+    0
+}
+
+fn main() {
+    let args: Vec<String> = std::env::args().collect();
+    let code = match args.get(1).map(|s| s.as_str()) {
+        Some("check") => check(&args),
+        Some("replay") => replay(args.get(2).expect("replay FILE")),
+        Some("show") => show(&args),
+        _ => {
+            eprintln!("usage: iosim check|replay|show ...");
+            2
+        }
+    };
+    std::process::exit(code);
+}
